@@ -2099,6 +2099,11 @@ func panicSources(c *core.Ctx, s *Stage, procs []*proc) {
 				if pr.g == nil && panicsOnNilArgument(p, s.Fn) {
 					continue
 				}
+				// an assertion on a loop-carried integer initialised from an integer parameter (`n--; if n < 0 { panic }`
+				// in Take): unreachable when the interval analysis of that quantity never finds the segment feasible
+				if panicUnreachableByIntervals(s, pr, p) {
+					continue
+				}
 				ok = false
 				c.Fail("no-panic-source", pr.name, lastPos(p), "explicit panic reachable in a library goroutine")
 				break
@@ -2183,6 +2188,29 @@ func ctorClosedBefore(mc *ssa.MakeChan, b *ssa.BasicBlock) bool {
 				if call.Block() == b || call.Block().Dominates(b) {
 					return true
 				}
+			}
+		}
+	}
+	return false
+}
+
+// panicUnreachableByIntervals: some loop-carried integer of the process that enters its loop with the value of an int
+// parameter of the stage (a budget, a countdown) has, at the fixpoint of the interval analysis over the process's
+// segments (branch refinement, widening), no interval under which every branch of segment p holds: p is never executed.
+func panicUnreachableByIntervals(s *Stage, pr *proc, p *ir.Path) bool {
+	if pr.an == nil || len(pr.an.Headers) == 0 {
+		return false
+	}
+	for _, prm := range paramNamedType(s.Fn, "int") {
+		nT := &ir.Term{Op: "param", Aux: prm.Name()}
+		for _, h := range pr.an.Headers {
+			q, _, found := loopQuantity(pr.an, h, nT)
+			if !found {
+				continue
+			}
+			res := runIntervals(pr.an, Itv{NegInf, PosInf}, q, nil)
+			if !res.Feasible[p] {
+				return true
 			}
 		}
 	}
